@@ -340,11 +340,11 @@ def create (s : State) (r : Req) : State × Resp :=
       let ue : Ue := match findUe s.ues r.supi with
         | some u => u
         | none => { supi := r.supi }
-      -- OpenCDR refuses the request (400) after NewCHFUe has stored the subscriber context, the notification
-      -- address has been overwritten and - for a session-based create - the sequence number has been taken:
-      -- the number is NOT handed back (another create may have taken the next one meanwhile)
+      -- OpenCDR refuses the request (400) after NewCHFUe has stored the subscriber context and - for a session-based
+      -- create - the sequence number has been taken: the number is NOT handed back (another create may have taken
+      -- the next one meanwhile).  The notification address is registered only by an accepted create.
       if r.bad then
-        ({ s with ues := putUe s.ues { ue with notifyUri := r.uri },
+        ({ s with ues := putUe s.ues ue,
                   sessionSeq := if r.one then s.sessionSeq else s.sessionSeq + 1 }, { status := 400 })
       else
       let (sid, sseq) := if r.one then (([] : Bytes), s.sessionSeq)
@@ -353,7 +353,10 @@ def create (s : State) (r : Req) : State × Resp :=
         { sid := if sid = [] then none else some sid, subData := subData r.supi, cid := r.cid,
           nf := if nf = [] then none else some nf, lsn := s.localSeq + 1, rsn := none, cause := 0, usage := [] }
       let rec1 := appendUsage rec0 r.usages
-      let ue' : Ue := { ue with notifyUri := r.uri, cdr := setSid ue.cdr sid ue.records.length,
+      -- a one-time event opens no session: its (closed) record is kept, the session map is not touched, and the
+      -- empty reference of its Location designates nothing
+      let ue' : Ue := { ue with notifyUri := r.uri,
+                                cdr := if r.one then ue.cdr else setSid ue.cdr sid ue.records.length,
                                 records := ue.records ++ [rec1] }
       ({ s with ues := putUe s.ues ue', localSeq := s.localSeq + 1, sessionSeq := sseq },
        { status := 201, loc := some sid, seq := some r.seq })
